@@ -67,6 +67,8 @@ pub struct Log {
     pub pred_calls: u64,
     pub assert_calls: u64,
     pub diag_calls: u64,
+    /// bytes of subtree dumps recorded by the created / deleted callbacks
+    pub dump_bytes: u64,
 }
 
 #[derive(Clone, Default)]
